@@ -14,8 +14,9 @@
 //!                                                                        -> fd=readable|not
 //!   ring        poll(2), timeout 0, on `Runtime::as_raw_fd()`            -> ring=readable|not
 //!   clear       read the registered eventfd (compio-compat `clear`)      -> ok
-//!   twake <t>   `wake_by_ref` of task t's waker on ANOTHER thread (joined; if the thread cannot
-//!               finish within 10 s because the cross-thread queue is full: `blocked`)  -> ok|blocked
+//!   twake <t>   `wake_by_ref` of task t's waker on ANOTHER thread (a long-lived helper thread; the call is
+//!               awaited; the generator never lets the queue fill up — should the call not return within
+//!               10 s because the cross-thread queue is full: `blocked`)                 -> ok|blocked
 //!   lwake <t>   the same on the runtime's own thread                     -> ok
 //!   run         `Runtime::run()` (= `Executor::tick`)                    -> polled <ids|-> hot=<0|1>
 //!
@@ -31,9 +32,14 @@
 //!   `round ok`; the judgement is carried by the monitors
 //!     C03:lost-wake                  (own loop)      a woken future is not polled again, even after the
 //!     C03:external-loop-lost-wake    (external loop) driver is woken once more by hand
+//!     C03:waker-thread-stuck                         a wake() call does not return (spins on the full queue) even
+//!                                                    after the driver is woken by hand
 //!     F030:wake-stranded-in-sync-queue               not polled within the watchdog, but polled as soon as
 //!                                                    the driver is woken by hand: the id sat in the sync
-//!                                                    queue and nobody told the runtime.
+//!                                                    queue and nobody told the runtime (repaired by e1c512a).
+//!   `C03:external-loop-lost-wake` is also raised by the deterministic programs (see `det_op`, "fd").
+//!
+//! `cancelprobe <iour|poll>` (replay files only) runs the experiment of notes/C03.md, observation F031.
 #![allow(dead_code)]
 
 use std::{
@@ -860,12 +866,12 @@ fn generate(tier: &str, rng: &mut Rng) -> Vec<Case> {
             k += 1;
         }
     }
-    let n_det = if thorough { 15_000 } else { 1_500 };
+    let n_det = if thorough { 20_000 } else { 1_500 };
     for i in 0..n_det {
         cases.push(gen_det(rng, format!("det-{i}")));
     }
     // (b) stress: a few configurations, many short rounds
-    let rounds = if thorough { 3000 } else { 300 };
+    let rounds = if thorough { 4000 } else { 300 };
     let mut k = 0;
     for drv in ["iour", "poll"] {
         for lp in ["own", "ext"] {
